@@ -143,6 +143,8 @@ PROPS = {
     ),
     "C03": dict(
         units=["replica"],
+        kani=["phase"],
+        kani_quick=True,
         level="proof",
         level_text="Deductive proof (Verus) over the real text of on_proposal, on_new_view, on_commit, on_timeout, start_new_view, start_timeout, "
                    "process_commit_qc, process_timeout_qc, get_justification, backup_state, save_block, StateMachine::start. Vote-once: "
@@ -199,22 +201,28 @@ PROPS = {
         assumptions=[],
     ),
     "C16": dict(
-        units=["replica"],
+        units=["replica", "prune"],
         level="proof",
-        level_text="Channel half. Deductive proof (Verus) over the real text of bft::inbound_selection_function, inbound_filter_predicate, "
-                   "ConsensusMsg::view_number and ChonkyMsg::view_number: messages of different senders or kinds never displace each other; "
-                   "of two messages of the same sender and kind exactly the one with the higher view survives and a tie keeps the pending "
-                   "one; a message is filtered only if its signature is invalid; computing the view of an unverified message never panics.",
-        level_note="NOT decided yet: the pruning closure of prunable_mpsc::Sender::send (it mutates a captured flag, which Verus rejects; a "
-                   "bounded Kani stand-in is planned) and the replica-side vote caches (abstracted regions of on_commit/on_timeout). "
-                   "ConsensusMsg::label() is taken to identify the message kind (4 distinct literals).",
-        technique="contract-based deductive verification (Verus on extracted real functions)",
+        level_text="Channel half, unbounded. Deductive proof (Verus) over the real text of bft::inbound_selection_function, "
+                   "inbound_filter_predicate, ConsensusMsg/ChonkyMsg::view_number (unit replica) and of prunable_mpsc::Sender::send with its "
+                   "two closures lifted mechanically (unit prune; the retain closure's captured flag becomes an explicit &mut parameter): "
+                   "messages of different senders or kinds never displace each other; of two messages of one sender and kind exactly the one "
+                   "with the higher view survives, a tie keeps the pending one; the queue after a send is the survivors in arrival order "
+                   "followed by the new message unless a pending one dominates it; lemma_prune_step: with a selection function satisfying "
+                   "the proved contract, a queue holding at most one message per (sender, kind) still does after any send, a message is "
+                   "dropped only if a same-class message with a higher (new dropped: equal or higher) view is present, order is preserved; a "
+                   "message is filtered only if its signature is invalid. For queues of any length.",
+        level_note="NOT decided: the replica-side vote caches (abstracted regions of on_commit/on_timeout), interleavings of concurrent "
+                   "senders (send_modify runs the closure under the watch lock, A4), Receiver::recv (pops the front; inspected). "
+                   "VecDeque::retain's documented semantics is a template (A1). ConsensusMsg::label() is taken to identify the message kind.",
+        technique="contract-based deductive verification (Verus on extracted real functions and mechanically lifted closures + inductive lemma)",
         design_ref="DESIGN.md §5 C16",
         assumptions=[],
     ),
     "C18": dict(
         units=["addrs"],
         kani=["is_newer"],
+        kani_quick=True,
         level="proof",
         level_text="Deductive proof (Verus) over the real text of ValidatorAddrs::update and ValidatorAddrsWatch::update: after the call (also "
                    "when the batch is rejected half-way) every entry is the one held before or an announcement from the batch that is by a "
@@ -264,6 +272,43 @@ PROPS = {
                    "the acquire mutex, A4). A6: the i128 tick counter stays below 2^126. time::Duration::new / tokio watch as documented.",
         technique="contract-based deductive verification (Verus on extracted real functions and lifted closures; rely predicate can_grant)",
         design_ref="DESIGN.md §5 C15",
+        assumptions=[],
+    ),
+    "C10": dict(
+        units=["mux", "noise", "qc", "replica"],
+        kani=["std_conv"],
+        level="proof",
+        level_text="For an EXPLICIT LIST of entry points, panic-freedom for every input as Verus obligations on the real text (arithmetic "
+                   "overflow, division, index / slice range, unwrap / expect, unreachable!, assert!/debug_assert! as proof obligations), with no "
+                   "precondition beyond the type invariant: mux::process_inbound_frames + header.rs (all 2^16 headers, all lengths), "
+                   "ReadStream::read_exact (given what the dispatcher delivers), noise Stream::handshake, poll_read_frame, poll_read_payload, "
+                   "poll_read and the write path, bytes::Buffer; CommitQC/TimeoutQC/ReplicaTimeout/LeaderProposal/ReplicaNewView/FinalBlock "
+                   "verify + add (incl. the assert_eq! in Signers::weight), get_implied_block/high_vote/high_qc under verify()'s postcondition; "
+                   "ViewNumber::next, View::next_view, ProposalJustification::view, ChonkyMsg/ConsensusMsg::view_number, the selection function "
+                   "and the four replica handlers before and after verification. Allocation in process_inbound_frames happens only after "
+                   "the size permits are held. Thorough tier: Kani (complete, loop-free) on the real protobuf crate: Duration/Timestamp "
+                   "decoding is total, Duration and SocketAddr round-trip.",
+        level_note="Not covered, and said so: prost decoding, quick_protobuf in canonical_raw, snow and tokio internals, the RPC service loop, "
+                   "frame::recv_proto/mux_recv_proto, preface, the abstracted vote-cache regions of on_commit/on_timeout, GenesisRaw::read "
+                   "(fixed F5, straight-line, not under contract). 'Never buffers more than its limits' is the permit accounting of C14 only.",
+        technique="contract-based deductive verification (Verus panic-freedom obligations on extracted real functions) + Kani complete harnesses on real leaf decoders",
+        design_ref="DESIGN.md §5 C10",
+        assumptions=[],
+    ),
+    "C09": dict(
+        units=[],
+        kani=["std_conv", "phase"],
+        kani_quick=True,
+        level="proof",
+        level_text="CONVERSION LAYER ONLY. Kani harnesses on the real crates (loop-free or loops bounded by a constant with unwinding "
+                   "assertions on, hence complete proofs over the full input domain, each yielding a concrete counterexample on failure): "
+                   "read(build(x)) == x for every time::Duration, every IPv4/IPv6 SocketAddr (all addresses, all ports), every Phase, every View "
+                   "(all 2^256 genesis hashes, all epochs and view numbers), every ReplicaCommit; Duration/Timestamp decoding is total.",
+        level_note="NOT decided: the protobuf wire layer (prost, quick_protobuf, the reflection-driven canonical_raw, the build-time schema "
+                   "check) -- sentences 2 and 3 of the statement stay with the existing tests; variable-length types (BitVec, Signers, Payload, "
+                   "certificates, TimeoutQC's BTreeMap order) are not harnessed. Trusted: Kani/CBMC, the time and std crates as compiled.",
+        technique="Kani complete harnesses (full-domain symbolic inputs, loop-free / constant-bounded with unwinding assertions) on the real crates",
+        design_ref="DESIGN.md §5 C09",
         assumptions=[],
     ),
 }
